@@ -37,7 +37,7 @@ def jobs(tier, seed):
     ld = lbc.c04_jobs(tier, seed, prop="C07", prefix="c07it", group_prefix="lbc_frame_stream") + lbc.cb_jobs(tier, seed, prop="C07", prefix="c07cb", group_prefix="lbc_frame_callbacks") \
         + lbc.c03_jobs(tier, seed, prop="C07", prefix="c07ml", group_prefix="lbc_frame_finish")
     if tier == "quick":
-        ld = [j for j in ld if lbc.pick(j.name, 4, 0)]
+        ld = [j for j in ld if lbc.pick(j.name, 4, 0) or (".k3r5e." in j.name and ".finish" in j.name and lbc.pick(j.name, 2, 0))]   # even N1 (injected zero symbol) + ML: a larger share
     else:
         ld = [j for j in ld if lbc.pick(j.name, 3, 2)]
     return out + ld
